@@ -33,6 +33,15 @@ def strBytes (s : String) : List Nat := s.toList.map Char.toNat
 def bytesNat (l : List Nat) : Option Nat :=
   if !l.isEmpty && l.all (fun b => 48 ≤ b ∧ b ≤ 57) then some (l.foldl (fun acc b => 10 * acc + (b - 48)) 0) else none
 
+/-- POS as `usize::from_str` reads it: an optional `+`, digits, a value below 2^64. -/
+def posNat (l : List Nat) : Option Nat :=
+  let d := match l with
+    | 43 :: r => r
+    | _ => l
+  match bytesNat d with
+  | some n => if n < 2 ^ 64 then some n else none
+  | none => none
+
 def isBases (l : List Nat) : Bool := !l.isEmpty && l.all (fun b => b = 65 ∨ b = 67 ∨ b = 71 ∨ b = 84 ∨ b = 78)
 
 def hasInfix (p : List Nat) : List Nat → Bool
@@ -51,11 +60,39 @@ def metaId (kind : String) (line : List Nat) : Option (List Nat) :=
   let pfx := strBytes ("##" ++ kind ++ "=<ID=")
   if pfx.isPrefixOf line then some ((line.drop pfx.length).takeWhile (fun b => b ≠ 44 ∧ b ≠ 62)) else none
 
+/-- `,IDX=<digits>` at the end of the body of a structured line (what stands before the closing `>`), as bcftools / htslib write it on
+    every contig / FILTER / INFO / FORMAT line of a BCF header: the index, and the body without the attribute. -/
+def splitIdx (body : List Nat) : Option Nat × List Nat :=
+  let digits := (body.reverse.takeWhile (fun b => 48 ≤ b ∧ b ≤ 57)).reverse
+  let rest := body.take (body.length - digits.length)
+  let tag := strBytes ",IDX="
+  if !digits.isEmpty && tag.reverse.isPrefixOf rest.reverse then (bytesNat digits, rest.take (rest.length - tag.length)) else (none, body)
+
+/-- The `IDX` attribute of a structured header line, if it ends in one. -/
+def lineIdx (l : List Nat) : Option Nat := if l.getLast? = some 62 then (splitIdx l.dropLast).1 else none
+
+/-- noodles' `string_maps::insert`: without `IDX` an id that is new goes to the end (a known one stays where it is); with `IDX = i` a
+    known id must already sit at `i` (otherwise the header is refused: `none`), a new one is put at position `i`, the dictionary being
+    padded with gaps as needed (putting it on top of another entry is not modelled: `none`). -/
+def dictInsert (d : List (Option String)) (id : String) (idx : Option Nat) : Option (List (Option String)) :=
+  match idx with
+  | none => if d.contains (some id) then some d else some (d ++ [some id])
+  | some i =>
+    match d.idxOf? (some id) with
+    | some j => if i = j then some d else none
+    | none =>
+      let d' := if i < d.length then d else d ++ List.replicate (i + 1 - d.length) none
+      match d'[i]? with
+      | some (some _) => none
+      | _ => some (d'.set i (some id))
+
 /-- A FILTER / INFO / FORMAT definition in the one spelling that is modelled: `##FILTER=<ID=x,Description="…">`,
     `##INFO=<ID=x,Number=…,Type=…,Description="…">`, the same for FORMAT; the FORMAT line of `GT` must declare
     `Number=1,Type=String` (any other declaration is refused by the parser or changes how the values are read). Everything
     else is "not modelled". -/
-def metaLineOk (l : List Nat) : Bool :=
+def metaLineOk (l0 : List Nat) : Bool :=
+  -- an `IDX` attribute at the end is set aside first
+  let l := if l0.getLast? = some 62 then (splitIdx l0.dropLast).2 ++ [62] else l0
   let quoted := hasInfix (strBytes ",Description=\"") l && l.getLast? = some 62 && (l.dropLast).getLast? = some 34
   if (strBytes "##FILTER=<ID=").isPrefixOf l then quoted
   else if (strBytes "##FORMAT=<ID=GT,").isPrefixOf l then (strBytes "##FORMAT=<ID=GT,Number=1,Type=String,Description=\"").isPrefixOf l && quoted
@@ -73,8 +110,8 @@ def otherMetaOk (l : List Nat) : Bool :=
 
 structure VcfHeader where
   samples : List String
-  contigs : List String           -- `##contig` IDs in order (BCF contig dictionary)
-  strings : List String           -- BCF string dictionary: PASS, then FILTER / INFO / FORMAT IDs in order of first appearance
+  contigs : List (Option String)  -- BCF contig dictionary: `##contig` IDs in order of appearance, or where their `IDX` puts them (`none`: a gap)
+  strings : List (Option String)  -- BCF string dictionary: PASS, then FILTER / INFO / FORMAT IDs in order of first appearance / by `IDX`
 deriving Repr, DecidableEq
 
 def chromLinePrefix : List Nat := strBytes "#CHROM\tPOS\tID\tREF\tALT\tQUAL\tFILTER\tINFO\tFORMAT\t"
@@ -85,29 +122,35 @@ def parseVcfHeaderLines (lines : List (List Nat)) : Option (VcfHeader × List (L
   match lines with
   | [] => none
   | first :: rest =>
-    if !(strBytes "##fileformat=VCFv4.").isPrefixOf first then none else
-    let rec go (fuel : Nat) (ls : List (List Nat)) (contigs strings : List String) : Option (VcfHeader × List (List Nat)) :=
+    -- `##fileformat=VCFv4.<minor>` with a minor version of one to three digits and nothing after it (anything else is refused or read
+    -- under other rules: not modelled)
+    let minor := first.drop (strBytes "##fileformat=VCFv4.").length
+    if !(strBytes "##fileformat=VCFv4.").isPrefixOf first || minor.isEmpty || minor.length > 3 || !minor.all (fun b => 48 ≤ b ∧ b ≤ 57) then none else
+    let rec go (fuel : Nat) (ls : List (List Nat)) (contigs strings : List (Option String)) : Option (VcfHeader × List (List Nat)) :=
       match fuel, ls with
       | 0, _ => none
       | _, [] => none
       | fuel + 1, l :: ls' =>
         if (strBytes "##").isPrefixOf l then
-          if hasInfix (strBytes "IDX=") l then none
+          -- `IDX=` anywhere but at the very end of a contig / FILTER / INFO / FORMAT line: not modelled
+          let idx := lineIdx l
+          let body := if idx.isSome then (splitIdx l.dropLast).2 else l
+          if hasInfix (strBytes "IDX=") body then none
           else
             match metaId "contig" l with
-            | some id => (asciiString id).bind (fun s => go fuel ls' (contigs ++ [s]) strings)
+            | some id => (asciiString id).bind (fun s => (dictInsert contigs s idx).bind (fun c' => go fuel ls' c' strings))
             | none =>
               match (metaId "FILTER" l).orElse (fun _ => (metaId "INFO" l).orElse (fun _ => metaId "FORMAT" l)) with
               | some id =>
                 if !metaLineOk l then none else
-                (asciiString id).bind (fun s => go fuel ls' contigs (if strings.contains s then strings else strings ++ [s]))
-              | none => if otherMetaOk l then go fuel ls' contigs strings else none
+                (asciiString id).bind (fun s => (dictInsert strings s idx).bind (fun s' => go fuel ls' contigs s'))
+              | none => if idx.isNone && otherMetaOk l then go fuel ls' contigs strings else none
         else if chromLinePrefix.isPrefixOf l then
           match ((splitBytes 9 (l.drop chromLinePrefix.length)).mapM asciiString) with
           | some names => if names.any (· == "") || !names.Nodup then none else some (⟨names, contigs, strings⟩, ls')
           | none => none
         else none
-    go (rest.length + 1) rest [] ["PASS"]
+    go (rest.length + 1) rest [] [some "PASS"]
 
 /-! ## VCF records -/
 
@@ -146,7 +189,7 @@ def parseVcfRecord (nSamples : Nat) (line : List Nat) : Option Rec :=
       if c == "" then none else
       -- contig names of letters, digits, `_` `.` `-` only (symbols `<x>`, `*`, blanks, a leading `#`: not modelled)
       if !c.toList.all (fun ch => ch.isAlphanum || ch == '_' || ch == '.' || ch == '-') then none else
-      match bytesNat pos with
+      match posNat pos with
       | none => some (.corrupt c 0)
       | some p =>
         if samples.isEmpty then none else
@@ -281,7 +324,7 @@ def bcfSharedTailOk (nAllele nInfo : Nat) (tail : List Nat) : Bool :=
     present, must be the first field (int8 only); the other fields must carry a defined key other than `PASS` and at least one
     int8 / int16 / int32 / float / char value per sample (their values are not interpreted). Returns the GT results, "all missing"
     when there is no GT field. `first` says whether the field at the head is the first one. -/
-def bcfIndivGo (gtKey : Option Nat) (nStrings nSample : Nat) (first : Bool) : Nat → List Nat → Option (Option (List GtRes))
+def bcfIndivGo (gtKey : Option Nat) (strings : List (Option String)) (nSample : Nat) (first : Bool) : Nat → List Nat → Option (Option (List GtRes))
   | 0, l => if l.isEmpty then some none else none
   | nFmt + 1, l =>
     match bcfTypedInt l with
@@ -298,15 +341,16 @@ def bcfIndivGo (gtKey : Option Nat) (nStrings nSample : Nat) (first : Bool) : Na
           | some (block, rest) =>
             if some key = gtKey then
               if !first ∨ ty ≠ 1 ∨ len = 0 then none else
-              match (chunksOf len nSample block).mapM bcfGtRes, bcfIndivGo gtKey nStrings nSample false nFmt rest with
+              match (chunksOf len nSample block).mapM bcfGtRes, bcfIndivGo gtKey strings nSample false nFmt rest with
               | some gts, some _ => some (some gts)
               | _, _ => none
             else
-              if key = 0 ∨ key ≥ nStrings ∨ len = 0 ∨ (ty = 7 ∧ block.any (· ≥ 128)) then none else
-              bcfIndivGo gtKey nStrings nSample false nFmt rest
+              -- the key must name an entry of the dictionary (not `PASS`, not a gap)
+              if key = 0 ∨ (strings[key]?).join.isNone ∨ len = 0 ∨ (ty = 7 ∧ block.any (· ≥ 128)) then none else
+              bcfIndivGo gtKey strings nSample false nFmt rest
 
-def bcfIndiv (gtKey : Option Nat) (nStrings nSample nFmt : Nat) (l : List Nat) : Option (List GtRes) :=
-  (bcfIndivGo gtKey nStrings nSample true nFmt l).map (fun r => r.getD (List.replicate nSample (.skipped .missing)))
+def bcfIndiv (gtKey : Option Nat) (strings : List (Option String)) (nSample nFmt : Nat) (l : List Nat) : Option (List GtRes) :=
+  (bcfIndivGo gtKey strings nSample true nFmt l).map (fun r => r.getD (List.replicate nSample (.skipped .missing)))
 
 /-- One BCF record (the shared and the per-sample block, after the two length words). Fixed part of the shared block: CHROM,
     POS, rlen (≥ 0), QUAL (only "missing" is modelled), n_info / n_allele (≥ 1), n_sample (must be the header's) / n_fmt. -/
@@ -320,10 +364,10 @@ def bcfRecord (h : VcfHeader) (shared indiv : List Nat) : Option Rec :=
     if c3 ≥ 128 ∨ p3 ≥ 128 ∨ r3 ≥ 128 ∨ nSample ≠ h.samples.length then none else
     if [q0, q1, q2, q3] ≠ [0x01, 0x00, 0x80, 0x7f] ∨ nAllele = 0 ∨ pos ≥ 2 ^ 31 - 1 then none else
     if !bcfSharedTailOk nAllele (leNat [i0, i1]) tail then none else
-    match h.contigs[chrom]? with
+    match (h.contigs[chrom]?).join with
     | none => none
     | some contig =>
-      (bcfIndiv (h.strings.idxOf? "GT") h.strings.length nSample f indiv).map (fun gts => Rec.gts contig (pos + 1) gts)
+      (bcfIndiv (h.strings.idxOf? (some "GT")) h.strings nSample f indiv).map (fun gts => Rec.gts contig (pos + 1) gts)
   | _ => none
 
 def bcfRecords (h : VcfHeader) : Nat → List Nat → Option (List Rec)
